@@ -8,8 +8,31 @@ the source makes a proof obligation fail and the check then searches for a faili
 What is canonicalised (so that harmless rewrites stay quiet): comments, white space, the order of the characters
 in a `find_first_not_of`-style set, the order of `a == X || a == Y` alternatives (the tested words must be
 distinct), `'c'` versus `"c"` as the argument of `find`, `k + v` versus `v + k` in an offset, `!`/`not`, `||`/`or`,
-`&&`/`and`, `std::string::npos` spellings.  Anything else that the patterns below do not recognise raises
-TranslateError (loud failure)."""
+`&&`/`and`, `std::string::npos` spellings.
+
+Round five: the patterns no longer read the raw text but a NORMAL FORM of every function body.  `normalise_sources`
+parses each function body of the three files into a statement tree (blocks, if/else, while, for, switch labels,
+simple statements; try/do are kept verbatim), rewrites it with semantics-preserving rules whose side conditions are
+checked, and prints it back with every branch braced:
+  0 tokens: not/and/or, `this->`, nullptr, `const` of a local declaration, literal/npos/number on the left of ==/!=
+    moved to the right, `x.size()==0` / `x.length()==0` / `x==""` / `x==std::string()` -> `x.empty()` and the
+    negated forms (`!=0`, `>0`, `>=1`, `!=""`) -> `!x.empty()`;
+  1 straight-line private helper functions (statements + one `return e`) are inlined where the call is the first
+    operation of an if-condition / return / initialiser / expression statement (reference parameters bound to plain
+    variables, value parameters unchanged by the helper, helper locals renamed on a clash);
+  2 parameters and locals that play a modelled role are renamed to the model's name (role = position in the
+    signature or the initialiser, e.g. `char X = value[0]` is `quote`, `std::string X; getline(in, X); value = value
+    + … + X` is `l`, `X = split(str)` is `sub`, `std::istringstream X(str)` is `s`);
+  3 structure: `return c ? a : b` -> if/return; `if (c) jump; else r` -> `if (c) jump; r`; `x == npos` tests turned
+    into `x != npos` with swapped branches, also as a guard clause without else; `if (c) continue; rest` at the end
+    of a loop body -> `if (!c) { rest }`; for-steps `i++`/`i+=1` -> `++i`, sorted; `while (c) { …; ++a; ++b; }` ->
+    `for (; c; ++a, ++b) { … }`; range-for and begin()/end() iterator loops over a named, unmodified sequence whose
+    element is only read -> index loop `for (std::size_t i=0; i<seq.size(); ++i)` with `seq[i]`;
+  4 data flow: `T = E; while (c[T]) { …; T = E; } rest[T]` (E side-effect free, T untouched elsewhere in the loop, no
+    continue/break, the refresh is the LAST statement of the body) -> E written for T; `x = E; x = G[x]` -> `x =
+    G[E]`; a local initialised once from a side-effect-free expression and never changed, whose operands are not
+    changed up to its last use, is written out (names of the model's vocabulary are kept).
+Anything the rules or the patterns below do not recognise raises TranslateError (loud failure)."""
 import os
 import re
 
@@ -221,6 +244,857 @@ def substr_calls(text, obj, what):
 
 
 # ---------------------------------------------------------------------------------------------------------------
+# statement-level front end (round five): function bodies are parsed into a statement tree, rewritten into a normal
+# form by semantics-preserving rules and printed back; the data patterns of `translate` read the normal form.
+# Every rule has a side condition that is CHECKED; where a condition cannot be established the text is left as it
+# is (and the patterns further down fail loudly).
+# ---------------------------------------------------------------------------------------------------------------
+def _skip_lit(s, i):
+    q, j = s[i], i + 1
+    while j < len(s) and s[j] != q:
+        j += 2 if s[j] == "\\" else 1
+    return j + 1
+
+
+def _match(s, i):
+    """index of the bracket that closes s[i]"""
+    pairs = {"(": ")", "[": "]", "{": "}"}
+    stack, n = [], len(s)
+    while i < n:
+        c = s[i]
+        if c in "\"'":
+            i = _skip_lit(s, i)
+            continue
+        if c in pairs:
+            stack.append(pairs[c])
+        elif c in ")]}":
+            if not stack or stack.pop() != c:
+                raise TranslateError("unbalanced brackets near %r" % s[max(0, i - 20):i + 10])
+            if not stack:
+                return i
+        i += 1
+    raise TranslateError("unbalanced brackets")
+
+
+_WS = re.compile(r"\s*")
+_CTRL = re.compile(r"(if|while|for|switch)\b\s*(?:constexpr\s*)?\(")
+
+
+def parse_stmts(s, i=0, end=None):
+    end = len(s) if end is None else end
+    out = []
+    while True:
+        i = _WS.match(s, i).end()
+        if i >= end:
+            return out
+        node, i = parse_stmt(s, i, end)
+        out.append(node)
+
+
+def _body_of(s, i, end):
+    node, i = parse_stmt(s, i, end)
+    return (node["b"] if node["k"] == "block" else [node]), i
+
+
+def parse_stmt(s, i, end):
+    i = _WS.match(s, i).end()
+    if i >= end:
+        raise TranslateError("statement expected")
+    c = s[i]
+    if c == "{":
+        j = _match(s, i)
+        return {"k": "block", "b": parse_stmts(s, i + 1, j)}, j + 1
+    if c == ";":
+        return {"k": "simple", "t": ""}, i + 1
+    m = _CTRL.match(s, i)
+    if m:
+        p = m.end() - 1
+        q = _match(s, p)
+        body, j = _body_of(s, q + 1, end)
+        if m.group(1) == "if":
+            e = None
+            m2 = re.compile(r"\s*else\b").match(s, j)
+            if m2:
+                e, j = _body_of(s, m2.end(), end)
+            return {"k": "if", "c": s[p + 1:q].strip(), "b": body, "e": e}, j
+        return {"k": m.group(1), "c": s[p + 1:q].strip(), "b": body}, j
+    m = re.compile(r"(case|default)\b").match(s, i)
+    if m:
+        j = m.end()
+        while j < end:
+            if s[j] in "\"'":
+                j = _skip_lit(s, j)
+                continue
+            if s[j] == ":" and s[j + 1:j + 2] != ":" and s[j - 1] != ":":
+                return {"k": "label", "t": s[i:j].strip()}, j + 1
+            j += 1
+        raise TranslateError("label without colon")
+    m = re.compile(r"(try|do)\b").match(s, i)
+    if m:  # kept verbatim
+        j = _WS.match(s, m.end()).end()
+        if s[j] != "{":
+            raise TranslateError("try/do without a block")
+        j = _match(s, j) + 1
+        while True:
+            m2 = re.compile(r"\s*(catch|while)\s*\(").match(s, j)
+            if not m2:
+                break
+            j = _match(s, m2.end() - 1) + 1
+            k = _WS.match(s, j).end()
+            if m2.group(1) == "catch":
+                j = _match(s, k) + 1
+            else:
+                j = k + 1 if s[k:k + 1] == ";" else j
+                break
+        return {"k": "raw", "t": s[i:j]}, j
+    j = i
+    while j < end:
+        ch = s[j]
+        if ch in "\"'":
+            j = _skip_lit(s, j)
+            continue
+        if ch in "([{":
+            j = _match(s, j) + 1
+            continue
+        if ch == ";":
+            return {"k": "simple", "t": s[i:j].strip()}, j + 1
+        j += 1
+    raise TranslateError("statement without `;`: %r" % s[i:i + 40])
+
+
+def unparse(nodes, ind="  "):
+    out = []
+    for n in nodes:
+        k = n["k"]
+        if k == "simple":
+            out.append(ind + n["t"] + ";")
+        elif k == "label":
+            out.append(ind + n["t"] + " :")
+        elif k == "raw":
+            out.append(ind + n["t"])
+        elif k == "block":
+            out += [ind + "{", unparse(n["b"], ind + "  "), ind + "}"]
+        elif k == "if":
+            out += [ind + "if (%s) {" % n["c"], unparse(n["b"], ind + "  "), ind + "}"]
+            if n["e"] is not None:
+                out += [ind + "else {", unparse(n["e"], ind + "  "), ind + "}"]
+        else:
+            out += [ind + "%s (%s) {" % (k, n["c"]), unparse(n["b"], ind + "  "), ind + "}"]
+    return "\n".join(x for x in out if x != "")
+
+
+def map_text(nodes, fn):
+    """apply fn to every expression / simple-statement text of the tree (in place)"""
+    for n in nodes:
+        if n["k"] in ("simple", "label"):
+            n["t"] = fn(n["t"])
+        elif n["k"] != "raw":
+            if "c" in n:
+                n["c"] = fn(n["c"])
+            map_text(n["b"], fn)
+            if n.get("e") is not None:
+                map_text(n["e"], fn)
+    return nodes
+
+
+def tree_text(nodes):
+    return unparse(nodes, "")
+
+
+# ---- literals out of the way ----------------------------------------------------------------------------------
+def protect(text):
+    lits, out, i = [], [], 0
+    while i < len(text):
+        c = text[i]
+        if c in "\"'":
+            j = _skip_lit(text, i)
+            lit = text[i:j]
+            if lit == '""':
+                out.append("\x01E\x01")
+            else:
+                lits.append(lit)
+                out.append("\x01L%d\x01" % (len(lits) - 1))
+            i = j
+        else:
+            out.append(c)
+            i += 1
+    return "".join(out), lits
+
+
+def restore(text, lits):
+    return re.sub("\x01(E|L\\d+)\x01", lambda m: '""' if m.group(1) == "E" else lits[int(m.group(1)[1:])], text)
+
+
+ID = r"[A-Za-z_]\w*"
+NPOS = r"(?:std\s*::\s*string\s*::\s*npos|std\s*::\s*string\s*::\s*size_type\s*\(\s*-\s*1\s*\)|string\s*::\s*npos)"
+
+
+def subst(text, name, repl):
+    """replace the identifier `name` (not a member name, not inside a literal) by repl"""
+    p, lits = protect(text)
+    p = re.sub(r"(?<![\w.])(?<!->)(?<!::)" + re.escape(name) + r"\b(?!\s*::)", lambda m: repl, p)
+    return restore(p, [l for l in lits])
+
+
+def mentions(text, name):
+    p, _ = protect(text)
+    return re.search(r"(?<![\w.])(?<!->)(?<!::)" + re.escape(name) + r"\b", p) is not None
+
+
+def _top_level_ops(e):
+    """does the expression contain an operator outside brackets (then it needs parentheses when substituted)?"""
+    p, _ = protect(e)
+    depth, i = 0, 0
+    while i < len(p):
+        c = p[i]
+        if c in "([{":
+            depth += 1
+        elif c in ")]}":
+            depth -= 1
+        elif depth == 0:
+            if p.startswith("::", i) or p.startswith("->", i):
+                i += 2
+                continue
+            if c in "+-*/%<>=!&|?:,^~" or c.isspace() and False:
+                return True
+        i += 1
+    return False
+
+
+def paren(e):
+    e = e.strip()
+    return "(" + e + ")" if _top_level_ops(e) else e
+
+
+PURE_CALLS = {"rtrim", "ltrim", "substr", "size", "length", "empty", "back", "front", "c_str", "at", "string", "size_t",
+              "min", "max"}
+
+
+def is_pure(e):
+    """built from identifiers, literals, arithmetic, indexing and calls of side-effect-free functions only"""
+    p, _ = protect(e)
+    if re.search(r"(?<![=!<>])=(?!=)|\+\+|--|<<|>>|\+=|-=|\bnew\b|\bdelete\b|\bthrow\b", p):
+        return False
+    for m in re.finditer(r"(" + ID + r")\s*\(", p):
+        if m.group(1) not in PURE_CALLS:
+            return False
+    return True
+
+
+def free_vars(e):
+    p, _ = protect(e)
+    vs = set()
+    for m in re.finditer(r"(?<![\w.])(?<!->)(?<!::)(" + ID + r")\b(?!\s*(?:\(|::))", p):
+        if m.group(1) not in ("std", "true", "false", "NULL", "npos", "size_t", "string"):
+            vs.add(m.group(1))
+    return vs
+
+
+def modifies(text, v):
+    """may `text` change the variable v?  (conservative: unknown calls that receive v count as changes)"""
+    p, _ = protect(text)
+    V = r"(?<![\w.])(?<!->)(?<!::)" + re.escape(v) + r"\b"
+    if re.search(V + r"\s*(?:\[[^\]]*\]\s*)?(?:=(?!=)|\+=|-=|\*=|/=|%=|\+\+|--|<<=|>>=)", p):
+        return True
+    if re.search(r"(?:\+\+|--)\s*" + V, p) or re.search(r">>\s*\*?\s*" + V, p):
+        return True
+    if re.search(V + r"\s*(?:\.|->)\s*(?:push_back|emplace_back|insert|erase|clear|append|assign|resize|pop_back|swap|imbue|"
+                 r"reserve|replace|get|ignore|read|seekg|unget|putback|setstate)\b", p):
+        return True
+    if re.search(r"(?<!&)&\s*" + V, p):
+        return True
+    for m in re.finditer(r"(" + ID + r")\s*\(", p):
+        if m.group(1) in PURE_CALLS or m.group(1) in ("if", "while", "for", "switch", "return", "hasKey", "hasSub", "count",
+                                                      "find", "DUNE_THROW", "sizeof", "find_first_of", "find_first_not_of",
+                                                      "find_last_not_of", "find_last_of", "parse"):
+            continue
+        try:
+            q = _match(p, m.end() - 1)
+        except TranslateError:
+            return True
+        if re.search(V, p[m.end():q]):
+            return True
+    return False
+
+
+# ---- rule 0: token canon --------------------------------------------------------------------------------------
+_CTX_OK = re.compile(r"(?:^|[(&|!,=?:;{]|\breturn)\s*$")
+
+
+def _commute(p):
+    """`literal == expr` -> `expr == literal` (also !=; literal = string/char literal, number, NULL, npos)"""
+    L = r"(?:\x01(?:E|L\d+)\x01|" + NPOS + r"|NULL|\d+)"
+    pos = 0
+    while True:
+        m = re.compile(r"(" + L + r")\s*(==|!=)\s*").search(p, pos)
+        if not m:
+            return p
+        pos = m.end()
+        if not _CTX_OK.search(p[:m.start()]):
+            continue
+        j, ok = m.end(), True
+        while j < len(p):
+            c = p[j]
+            if c in "([":
+                j = _match(p, j) + 1
+                continue
+            if c in ")],;?" or p.startswith("&&", j) or p.startswith("||", j) or p.startswith("==", j) or p.startswith("!=", j):
+                break
+            if c == ":" and not (p.startswith("::", j) or p[j - 1] == ":"):
+                break
+            if c in "<>" and not p.startswith("->", j - 1):
+                ok = False
+                break
+            j += 1
+        rhs = p[m.end():j].strip()
+        if not ok or not rhs or re.fullmatch(L, rhs):
+            continue
+        new = rhs + " " + m.group(2) + " " + m.group(1)
+        p = p[:m.start()] + new + p[j:]
+        pos = m.start() + len(new)
+
+
+def canon_tokens(text):
+    p, lits = protect(text)
+    p = re.sub(r"\bnot\b", "!", p)
+    p = re.sub(r"\band\b", "&&", p)
+    p = re.sub(r"\bor\b", "||", p)
+    p = re.sub(r"\bthis\s*->\s*", "", p)
+    p = re.sub(r"\bnullptr\b", "NULL", p)
+    p = re.sub(r"^\s*const\s+(?=[\w:])", "", p)                      # `const T x = …` as a local declaration
+    p = re.sub(r"^(\s*)(static\s+)const\s+(?=[\w:])", r"\1\2", p)
+    p = _commute(p)
+    X = r"(?<![\w.>:\]\)])(" + ID + r")"
+    SZ = r"\s*\.\s*(?:size|length)\s*\(\s*\)"
+    E = "\x01E\x01"
+
+    def rep(neg):
+        def f(m):
+            if not re.search(r"(?:^|[(&|!,=?:;{]|\breturn)\s*$", p_cur[0][:m.start()]):
+                return m.group(0)
+            return ("!" if neg else "") + m.group(1) + ".empty()"
+        return f
+    p_cur = [p]
+    for rx, neg in ((X + SZ + r"\s*==\s*0\b", False), (X + r"\s*==\s*" + E, False),
+                    (X + r"\s*==\s*std\s*::\s*string\s*\(\s*\)", False),
+                    (X + SZ + r"\s*(?:!=\s*0|>\s*0|>=\s*1)\b", True), (X + r"\s*!=\s*" + E, True),
+                    (X + r"\s*!=\s*std\s*::\s*string\s*\(\s*\)", True)):
+        p_cur[0] = re.sub(rx, rep(neg), p_cur[0])
+    p = p_cur[0]
+    p = re.sub(r"!\s*!\s*(" + ID + r"\s*\.\s*empty\s*\(\s*\))", r"\1", p)
+    return restore(p, lits)
+
+
+# ---- rule 1: private helper functions are inlined at their call sites -----------------------------------------
+MODELLED = {"ltrim", "rtrim", "split", "parseRange", "parse", "hasKey", "hasSub", "sub", "get", "readINITree", "readOptions",
+            "readNamedOptions", "generateHelpString", "report", "getValueKeys", "getSubKeys", "operator", "ParameterTree"}
+
+
+def param_names(params):
+    inner = params.strip()
+    inner = inner[1:-1] if inner.startswith("(") else inner
+    res = []
+    for piece in split_args(inner):
+        piece = piece.split("=")[0].strip()
+        m = re.search(r"(" + ID + r")\s*(?:\[\s*\])?$", piece)
+        res.append((m.group(1) if m else None, "&" in piece, piece))
+    return res
+
+
+def helper_shape(fn):
+    """(statements before the return, return expression | None) if the body is straight-line code"""
+    body = fn["tree"]
+    if not body or any(n["k"] != "simple" for n in body):
+        return None
+    pre, last = body[:-1], body[-1]["t"]
+    if any(re.match(r"return\b", n["t"]) for n in pre):
+        return None
+    m = re.match(r"return\b\s*(.*)$", last, flags=re.S)
+    if m:
+        return [n["t"] for n in pre], m.group(1).strip()
+    return [n["t"] for n in body], None
+
+
+def inline_helpers(nodes, helpers, scope_text):
+    """replace calls of straight-line helpers: the helper's statements are placed in front of the statement whose
+    FIRST evaluated operation is the call (if-condition / return / initialiser / expression statement); reference
+    parameters must be bound to plain variables, value parameters must not be changed by the helper"""
+    out = []
+    for n in nodes:
+        if n["k"] not in ("simple", "if"):
+            if n["k"] != "raw" and n["k"] != "label":
+                n["b"] = inline_helpers(n["b"], helpers, scope_text)
+            out.append(n)
+            continue
+        if n["k"] == "if":
+            n["b"] = inline_helpers(n["b"], helpers, scope_text)
+            if n["e"] is not None:
+                n["e"] = inline_helpers(n["e"], helpers, scope_text)
+        field = "c" if n["k"] == "if" else "t"
+        for _ in range(4):
+            p, lits = protect(n[field])
+            lead = r"(?:return\b\s*|(?:[\w:<>,&*\s]+?\s)?" + ID + r"\s*=(?!=)\s*)?" if n["k"] == "simple" else ""
+            m = re.match(r"\s*" + lead + r"(?:[!(]\s*)*(" + ID + r")\s*\(", p)
+            if not m or m.group(1) not in helpers:
+                break
+            h = helpers[m.group(1)]
+            shape = helper_shape(h)
+            if shape is None:
+                break
+            q = _match(p, m.end() - 1)
+            args = split_args(p[m.end():q])
+            pars = param_names(h["params"])
+            if len(args) != len(pars) or any(a is None for a, _, _ in pars):
+                break
+            pre, ret = shape
+            if ret is None and not re.fullmatch(r"\s*" + ID + r"\s*\(.*\)\s*", p, flags=re.S):
+                break
+            if len(re.findall(r"(?<![\w.>:])" + m.group(1) + r"\s*\(", p)) != 1:
+                break
+            ok = True
+            for (pn, byref, _), a in zip(pars, args):
+                if not re.fullmatch(ID + r"|\x01(?:E|L\d+)\x01|\d+", a):
+                    ok = False
+                if not byref and any(modifies(t, pn) for t in pre + [ret or ""]):
+                    ok = False
+            if not ok:
+                break
+            # locals of the helper must not capture names of the caller
+            ren = {}
+            for t in pre:
+                dm = re.match(r"(?:[\w:<>,\s&*]+?)\s+(" + ID + r")\s*(?:=(?!=)|$|\(|\{)", t)
+                if dm and not re.match(r"return\b", t):
+                    nm = dm.group(1)
+                    if mentions(scope_text, nm) or nm in [restore(a, lits) for a in args]:
+                        k = 1
+                        while mentions(scope_text, "%s_%d" % (nm, k)):
+                            k += 1
+                        ren[nm] = "%s_%d" % (nm, k)
+
+            def inst(t):
+                tmp = {}
+                for idx, ((pn, _, _), a) in enumerate(zip(pars, args)):
+                    tmp[pn] = "\x02P%d\x02" % idx
+                for nm, new in ren.items():
+                    t = subst(t, nm, new)
+                for pn, ph in tmp.items():
+                    t = subst(t, pn, ph)
+                for idx, a in enumerate(args):
+                    t = t.replace("\x02P%d\x02" % idx, restore(a, lits))
+                return t
+            for t in pre:
+                out.append({"k": "simple", "t": inst(t)})
+                scope_text += "\n" + inst(t) + ";"
+            if ret is None:
+                n = None
+                break
+            newp = p[:m.start(1)] + "(" + "\x03" + ")" + p[q + 1:]
+            n[field] = restore(newp, lits).replace("\x03", inst(ret))
+        if n is not None:
+            out.append(n)
+    return out
+
+
+# ---- rule 2: structure ----------------------------------------------------------------------------------------
+def ends_in_jump(body):
+    if not body:
+        return False
+    last = body[-1]
+    if last["k"] == "simple":
+        return re.match(r"(return\b|throw\b|DUNE_THROW\s*\(|continue\b|break\b)", last["t"]) is not None
+    if last["k"] == "block":
+        return ends_in_jump(last["b"])
+    if last["k"] == "if":
+        return last["e"] is not None and ends_in_jump(last["b"]) and ends_in_jump(last["e"])
+    return False
+
+
+def _split_ternary(e):
+    p, lits = protect(e)
+    depth, q, c = 0, None, None
+    for i, ch in enumerate(p):
+        if ch in "([{":
+            depth += 1
+        elif ch in ")]}":
+            depth -= 1
+        elif depth == 0 and ch == "?" and q is None:
+            q = i
+        elif depth == 0 and ch == ":" and q is not None and not (p.startswith("::", i) or p[i - 1] == ":"):
+            c = i
+            break
+    if q is None or c is None or "?" in p[c:]:
+        return None
+    return restore(p[:q], lits).strip(), restore(p[q + 1:c], lits).strip(), restore(p[c + 1:], lits).strip()
+
+
+def _strip_parens(e):
+    e = e.strip()
+    while e.startswith("(") and _match(e, 0) == len(e) - 1:
+        e = e[1:-1].strip()
+    return e
+
+
+def _canon_steps(hdr_step):
+    steps = []
+    for s in split_args(hdr_step):
+        s = re.sub(r"\s+", "", s)
+        m = re.fullmatch(r"(" + ID + r")\+\+|\+\+(" + ID + r")|(" + ID + r")\+=1", s)
+        steps.append("++" + (m.group(1) or m.group(2) or m.group(3)) if m else s)
+    return steps
+
+
+def _for_parts(c):
+    p, lits = protect(c)
+    depth, cuts = 0, []
+    for i, ch in enumerate(p):
+        if ch in "([{":
+            depth += 1
+        elif ch in ")]}":
+            depth -= 1
+        elif ch == ";" and depth == 0:
+            cuts.append(i)
+    if len(cuts) != 2:
+        return None
+    return [restore(x, lits).strip() for x in (p[:cuts[0]], p[cuts[0] + 1:cuts[1]], p[cuts[1] + 1:])]
+
+
+def _has_word(nodes, words):
+    return re.search(r"\b(?:" + "|".join(words) + r")\b", protect(tree_text(nodes))[0]) is not None
+
+
+def negate(c):
+    c = _strip_parens(c)
+    m = re.fullmatch(r"!\s*(\(.*\))", c, flags=re.S)
+    if m and _match(m.group(1), 0) == len(m.group(1)) - 1:
+        return _strip_parens(m.group(1))
+    m = re.fullmatch(r"!\s*([\w.:]+(?:\s*\([^()]*\))?)", c)
+    if m:
+        return m.group(1)
+    m = re.fullmatch(r"(" + ID + r")\s*(==|!=)\s*(" + NPOS + r"|NULL|\d+)", c)
+    if m:
+        return "%s %s %s" % (m.group(1), "!=" if m.group(2) == "==" else "==", m.group(3))
+    return "!(" + c + ")"
+
+
+def _is_only(body, word):
+    return len(body) == 1 and body[0]["k"] == "simple" and body[0]["t"].strip() == word
+
+
+def structure(nodes, loop_body=False):
+    out = []
+    for idx, n in enumerate(nodes):
+        k = n["k"]
+        if k == "if" and n["e"] is None and idx + 1 < len(nodes):
+            cnd = _strip_parens(n["c"])
+            # guard clauses: `if (x == npos) { …jump } rest`  ==  `if (x != npos) { rest } else { …jump }`   (rest ends in a jump)
+            #                `if (c) continue; rest` as the tail of a loop body  ==  `if (!c) { rest }`
+            m = re.fullmatch(r"(" + ID + r")\s*==\s*" + NPOS, cnd) or re.fullmatch(r"!\s*\(\s*(" + ID + r")\s*!=\s*" + NPOS + r"\s*\)", cnd)
+            rest = nodes[idx + 1:]
+            if m and ends_in_jump(n["b"]) and ends_in_jump(rest) and not any(x["k"] == "label" for x in rest):
+                out += structure([{"k": "if", "c": m.group(1) + " != std::string::npos", "b": rest, "e": n["b"]}], loop_body)
+                return out
+            if loop_body and _is_only(n["b"], "continue") and not any(x["k"] == "label" for x in rest):
+                out += structure([{"k": "if", "c": negate(cnd), "b": rest, "e": None}], False)
+                return out
+        if k in ("block", "while", "for", "switch", "if"):
+            n["b"] = structure(n["b"], k in ("while", "for"))
+            if n.get("e") is not None:
+                n["e"] = structure(n["e"])
+        if k == "simple":
+            # `return c ? a : b;`  ==  `if (c) return a; return b;`
+            m = re.match(r"return\b(.*)$", n["t"], flags=re.S)
+            tern = _split_ternary(m.group(1)) if m else None
+            if tern:
+                out.append({"k": "if", "c": _strip_parens(tern[0]), "b": [{"k": "simple", "t": "return " + tern[1]}], "e": None})
+                out.append({"k": "simple", "t": "return " + tern[2]})
+                continue
+        if k == "if":
+            n["c"] = _strip_parens(n["c"])
+            # a search result compared with npos: the `found` branch comes first
+            m = re.fullmatch(r"(" + ID + r")\s*==\s*" + NPOS, n["c"])
+            if m and n["e"] is not None:
+                n["c"], n["b"], n["e"] = m.group(1) + " != std::string::npos", n["e"], n["b"]
+            m = re.fullmatch(r"!\s*\(\s*(" + ID + r")\s*(==|!=)\s*" + NPOS + r"\s*\)", n["c"])
+            if m:
+                n["c"] = m.group(1) + (" != " if m.group(2) == "==" else " == ") + "std::string::npos"
+            # `if (c) jump; else rest`  ==  `if (c) jump; rest`
+            if n["e"] is not None and ends_in_jump(n["b"]):
+                rest, n["e"] = n["e"], None
+                out.append(n)
+                if any(x["k"] == "simple" and re.match(r"(?:[\w:<>,&*\s]+?\s)" + ID + r"\s*(?:=(?!=)|$|\(|\{)", x["t"])
+                       and not re.match(r"(return|throw|delete|else|goto)\b", x["t"]) for x in rest):
+                    out.append({"k": "block", "b": rest})
+                else:
+                    out += rest
+                continue
+        if k == "for":
+            parts = _for_parts(n["c"])
+            if parts:
+                n["c"] = "%s; %s; %s" % (parts[0], parts[1], ", ".join(sorted(_canon_steps(parts[2]))) if parts[2] else "")
+                # iterator loop over a named sequence == index loop, when the iterator is only dereferenced
+                mi = re.fullmatch(r"(?:auto|[\w:<>,\s]*iterator)\s+(" + ID + r")\s*=\s*(" + ID + r")\s*\.\s*c?begin\s*\(\s*\)", parts[0])
+                if mi:
+                    itn, seq = mi.group(1), mi.group(2)
+                    btxt = protect(tree_text(n["b"]))[0]
+                    uses = len(re.findall(r"(?<![\w.])" + itn + r"\b", btxt))
+                    derefs = len(re.findall(r"\*\s*" + itn + r"\b(?!\s*[\[(.+-])", btxt)) + len(re.findall(r"(?<![\w.])" + itn + r"\s*->", btxt))
+                    if (re.fullmatch(itn + r"\s*!=\s*" + seq + r"\s*\.\s*c?end\s*\(\s*\)", parts[1]) and _canon_steps(parts[2]) == ["++" + itn]
+                            and uses == derefs and not _has_word(n["b"], ["i"]) and not modifies(tree_text(n["b"]), seq)):
+                        def deit(t):
+                            q, lits = protect(t)
+                            q = re.sub(r"\(\s*\*\s*" + itn + r"\s*\)(?=\s*\.)", seq + "[i]", q)
+                            q = re.sub(r"\*\s*" + itn + r"\b", seq + "[i]", q)
+                            q = re.sub(r"(?<![\w.])" + itn + r"\s*->\s*", seq + "[i].", q)
+                            return restore(q, lits)
+                        map_text(n["b"], deit)
+                        n["c"] = "std::size_t i=0; i<%s.size(); ++i" % seq
+            else:
+                # range-for over a named sequence == index loop whose counter is used for nothing but `seq[i]`
+                m = re.fullmatch(r"(.*?)\b(" + ID + r")\s*:\s*(" + ID + r")", n["c"], flags=re.S)
+                if m and not _has_word(n["b"], ["i"]) and not modifies(tree_text(n["b"]), m.group(3)) \
+                        and not modifies(tree_text(n["b"]), m.group(2)):
+                    el, seq = m.group(2), m.group(3)
+                    map_text(n["b"], lambda t: subst(t, el, seq + "[i]"))
+                    n["c"] = "std::size_t i=0; i<%s.size(); ++i" % seq
+        if k == "while" and n["b"] and not _has_word(n["b"], ["continue"]):
+            # `while (c) { body; ++x; ++y; }`  ==  `for (; c; ++x, ++y) { body }`
+            steps = []
+            while len(n["b"]) > 1 and n["b"][-1]["k"] == "simple":
+                st = _canon_steps(n["b"][-1]["t"])
+                if len(st) == 1 and re.fullmatch(r"\+\+" + ID, st[0]):
+                    steps.append(st[0])
+                    n["b"].pop()
+                else:
+                    break
+            if steps:
+                n = {"k": "for", "c": "; %s; %s" % (n["c"], ", ".join(sorted(steps))), "b": n["b"]}
+        out.append(n)
+    return out
+
+
+# ---- rule 3: data flow ----------------------------------------------------------------------------------------
+_DECL = re.compile(r"((?:static\s+)?[\w:<>,&*\s]+?[\s&*])(" + ID + r")\s*=(?!=)\s*(.*)$", re.S)
+_ASSIGN = re.compile(r"(" + ID + r")\s*=(?!=)\s*(.*)$", re.S)
+
+
+def dataflow(nodes, keep):
+    for n in nodes:
+        if n["k"] in ("block", "while", "for", "switch", "if"):
+            n["b"] = dataflow(n["b"], keep)
+            if n.get("e") is not None:
+                n["e"] = dataflow(n["e"], keep)
+    changed = True
+    while changed:
+        changed = False
+        for j, n in enumerate(nodes):
+            if n["k"] != "simple":
+                continue
+            # (a) `T = E; while (c[T]) { …; T = E; } after[T]`  ==  the same with E written for T
+            dm = _DECL.fullmatch(n["t"]) or None
+            am = _ASSIGN.fullmatch(n["t"])
+            if j + 1 < len(nodes) and nodes[j + 1]["k"] == "while" and dm and is_pure(dm.group(3)):
+                T, E, w = dm.group(2), dm.group(3).strip(), nodes[j + 1]
+                wb = w["b"]
+                Ek = re.sub(r"\s+", "", E)
+                if (mentions(w["c"], T) and wb and wb[-1]["k"] == "simple" and _ASSIGN.fullmatch(wb[-1]["t"])
+                        and _ASSIGN.fullmatch(wb[-1]["t"]).group(1) == T
+                        and re.sub(r"\s+", "", _ASSIGN.fullmatch(wb[-1]["t"]).group(2)) == Ek
+                        and not mentions(tree_text(wb[:-1]), T) and not _has_word(wb[:-1], ["continue", "break", "goto"])
+                        and not mentions(E, T)):
+                    vs = free_vars(E)
+                    rest, okr, stop = nodes[j + 2:], True, False
+                    plan = []
+                    for r in rest:
+                        txt = tree_text([r])
+                        if stop:
+                            if mentions(txt, T):
+                                okr = False
+                            continue
+                        if not any(modifies(txt, v) for v in vs):
+                            plan.append((r, "all"))
+                            continue
+                        ra = _ASSIGN.fullmatch(r["t"]) if r["k"] == "simple" else None
+                        if ra and ra.group(1) in vs and not any(modifies(ra.group(2), v) for v in vs):
+                            plan.append((r, "rhs"))
+                            stop = True
+                        elif mentions(txt, T):
+                            okr = False
+                        else:
+                            stop = True
+                    if okr:
+                        w["c"] = subst(w["c"], T, paren(E))
+                        w["b"] = wb[:-1]
+                        for r, how in plan:
+                            if how == "all":
+                                map_text([r], lambda t: subst(t, T, paren(E)))
+                            else:
+                                ra = _ASSIGN.fullmatch(r["t"])
+                                r["t"] = ra.group(1) + " = " + subst(ra.group(2), T, paren(E))
+                        del nodes[j]
+                        changed = True
+                        break
+            # (b) `X = E; X = G[X];`  ==  `X = G[E];`
+            if am and j + 1 < len(nodes) and nodes[j + 1]["k"] == "simple":
+                X, E = am.group(1), am.group(2).strip()
+                a2 = _ASSIGN.fullmatch(nodes[j + 1]["t"])
+                if a2 and a2.group(1) == X and is_pure(E) and is_pure(a2.group(2)) and mentions(a2.group(2), X):
+                    nodes[j + 1]["t"] = X + " = " + subst(a2.group(2), X, paren(E))
+                    del nodes[j]
+                    changed = True
+                    break
+            # (c) a local that is initialised once from a side-effect-free expression and never changed is written out
+            if dm and dm.group(2) not in keep and is_pure(dm.group(3)) and not re.match(r"\s*static\b", dm.group(1)) \
+                    and "&" not in dm.group(1).replace("&&", ""):
+                T, E = dm.group(2), dm.group(3).strip()
+                rest = nodes[j + 1:]
+                uses = [i for i, r in enumerate(rest) if mentions(tree_text([r]), T)]
+                ident = re.search(r"(?<![\w.])" + re.escape(T) + r"\s*\.\s*(?:begin|end|data|c_str|rbegin|rend)\b|&\s*" + re.escape(T) + r"\b",
+                                  tree_text(rest))
+                if uses and not ident and not modifies(tree_text(rest), T) and not mentions(E, T):
+                    lastn = rest[uses[-1]]
+                    if lastn["k"] == "if" and not mentions(tree_text(lastn["b"] + (lastn["e"] or [])), T):
+                        # the condition of an `if` is evaluated once, before its branches
+                        span = tree_text(rest[:uses[-1]]) + "\n" + lastn["c"]
+                    else:
+                        span = tree_text(rest[:uses[-1] + 1])
+                    if not any(modifies(span, v) for v in free_vars(E)):
+                        map_text(rest[:uses[-1] + 1], lambda t: subst(t, T, paren(E)))
+                        del nodes[j]
+                        changed = True
+                        break
+    return nodes
+
+
+# ---- rule 4: locals that play a modelled role get the model's name (alpha-renaming) --------------------------
+ROLES = [
+    ("readINITree", r"^\s*std::string\s+(?P<n>\w+)\s*;", "prefix"),
+    ("readINITree", r"std::set\s*<\s*std::string\s*>\s+(?P<n>\w+)\s*;", "keysInFile"),
+    ("readINITree", r"std::string\s+(?P<n>\w+)\s*;\s*(?:std::)?getline\s*\(\s*in\s*,\s*(?P=n)\s*\)\s*;\s*(?P=n)\s*=\s*ltrim\b", "line"),
+    ("readINITree", r"std::string\s+(?P<n>\w+)\s*=\s*prefix\s*\+", "key"),
+    ("readINITree", r"std::string\s+(?P<n>\w+)\s*=\s*(?:[lr]trim\s*\(\s*)*line\s*\.\s*substr\s*\(", "value"),
+    ("readINITree", r"char\s+(?P<n>\w+)\s*=\s*value\s*\[\s*0\s*\]\s*;", "quote"),
+    ("readINITree", r"std::string\s+(?P<n>\w+)\s*;\s*(?:std::)?getline\s*\(\s*in\s*,\s*(?P=n)\s*\)\s*;\s*value\s*(?:=\s*value\s*\+|\+=)", "l"),
+    ("readNamedOptions", r"std::string\s+(?P<n>\w+)\s*=\s*argv\s*\[\s*i\s*\]\s*;", "opt"),
+    ("parse", r"std::istringstream\s+(?P<n>\w+)\s*\(\s*str\s*\)\s*;", "s"),
+    ("parseRange", r"std::istringstream\s+(?P<n>\w+)\s*\(\s*str\s*\)\s*;", "s"),
+    ("parse", r"\bchar\s+(?P<n>\w+)\s*;\s*s\s*>>\s*(?P=n)\s*;", "dummy"),
+    ("parseRange", r"\bchar\s+(?P<n>\w+)\s*;\s*s\s*>>\s*(?P=n)\s*;", "dummy"),
+    ("parse", r"std::vector\s*<\s*std::string\s*>\s+(?P<n>\w+)\s*=\s*split\s*\(\s*str\s*\)\s*;", "sub"),
+    ("parse", r"std::string\s+(?P<n>\w+)\s*=\s*str\s*;", "ret"),
+    ("parse", r"std::vector\s*<\s*T\s*,\s*A\s*>\s+(?P<n>\w+)\s*;", "vec"),
+]
+PARAM_ROLES = {("hasKey", 1): ["key"], ("hasSub", 1): ["key"], ("sub", 1): ["key"], ("sub", 2): ["key", "fail_if_missing"],
+               ("operator[]", 1): ["key"], ("get", 1): ["key"], ("get", 2): ["key", "defaultValue"], ("parse", 1): ["str"],
+               ("parseRange", 3): ["str", "it", "end"], ("readINITree", 4): ["in", "pt", "srcname", "overwrite"],
+               ("readOptions", 3): ["argc", "argv", "pt"], ("ltrim", 1): ["s"], ("rtrim", 1): ["s"], ("split", 1): ["s"],
+               ("readNamedOptions", 8): ["argc", "argv", "pt", "keywords", "required", "allow_more", "overwrite", "help"]}
+KEEP = {"key", "value", "line", "prefix", "quote", "l", "opt", "ret", "s", "sub", "val", "vec", "dummy", "pos", "dot", "mid",
+        "comment", "it", "n", "i", "keysInFile"}
+
+
+def rename_in_tree(nodes, old, new, what):
+    if old == new:
+        return
+    if mentions(tree_text(nodes), new):
+        raise TranslateError("%s: cannot rename `%s` to `%s` (name already in use)" % (what, old, new))
+    map_text(nodes, lambda t: subst(t, old, new))
+
+
+def normalise_body(fname, params, tree, helpers):
+    map_text(tree, canon_tokens)
+    tree[:] = inline_helpers(tree, helpers, params + tree_text(tree))
+    pn = param_names(params)
+    want = PARAM_ROLES.get((fname, len(pn)))
+    if want and all(p[0] for p in pn):
+        # two-step renaming so that swapped names do not collide
+        for idx, (p, _, _) in enumerate(pn):
+            if p != want[idx]:
+                if mentions(tree_text(tree), want[idx]) and want[idx] not in [q[0] for q in pn]:
+                    raise TranslateError("%s: parameter `%s` cannot be renamed to `%s`" % (fname, p, want[idx]))
+        tmp = ["\x04%d\x04" % i for i in range(len(pn))]
+        for idx, (p, _, _) in enumerate(pn):
+            if p != want[idx]:
+                map_text(tree, lambda t, p=p, idx=idx: subst(t, p, tmp[idx]))
+                params = subst(params, p, tmp[idx])
+        for idx in range(len(pn)):
+            map_text(tree, lambda t, idx=idx: t.replace(tmp[idx], want[idx]))
+            params = params.replace(tmp[idx], want[idx])
+    for fn, rx, canonical in ROLES:
+        if fn != fname:
+            continue
+        m = re.search(rx, tree_text(tree), flags=re.S)
+        if m:
+            rename_in_tree(tree, m.group("n"), canonical, fname)
+    tree[:] = structure(tree)
+    tree[:] = dataflow(tree, KEEP)
+    tree[:] = structure(tree)
+    return params, tree
+
+
+def find_functions(src):
+    """(open brace, close brace, name, '(' of the parameter list, ')' of it) of every function definition outside
+    function bodies"""
+    res, i, n = [], 0, len(src)
+    while i < n:
+        c = src[i]
+        if c in "\"'":
+            i = _skip_lit(src, i)
+            continue
+        if c == "{":
+            before = src[:i].rstrip()
+            m = re.search(r"\)\s*(?:const)?\s*(?:noexcept)?\s*$", before)
+            if m:
+                close = before.rfind(")", 0, m.start() + 1)
+                depth, k = 0, close
+                while k >= 0:
+                    if src[k] == ")":
+                        depth += 1
+                    elif src[k] == "(":
+                        depth -= 1
+                        if depth == 0:
+                            break
+                    k -= 1
+                hm = re.search(r"(operator\s*\[\s*\]|operator\s*\(\s*\)|[\w~]+)\s*$", src[:k])
+                if k >= 0 and hm and hm.group(1) not in ("if", "while", "for", "switch", "catch"):
+                    j = _match(src, i)
+                    res.append((i, j, re.sub(r"\s+", "", hm.group(1)), k, close))
+                    i = j + 1
+                    continue
+        i += 1
+    return res
+
+
+def normalise_sources(srcs):
+    """srcs: list of comment-stripped file texts -> the same files with every function body in normal form"""
+    found = [find_functions(s) for s in srcs]
+    helpers = {}
+    for s, fs in zip(srcs, found):
+        for (o, c, name, po, pc) in fs:
+            if name not in MODELLED and not name.startswith("operator"):
+                try:
+                    tree = parse_stmts(s, o + 1, c)
+                    map_text(tree, canon_tokens)
+                except TranslateError:
+                    continue
+                if name in helpers:
+                    helpers[name] = None      # overloaded: not inlined
+                else:
+                    helpers[name] = {"params": s[po:pc + 1], "tree": tree}
+    helpers = {k: v for k, v in helpers.items() if v is not None and helper_shape(v) is not None}
+    outs = []
+    for s, fs in zip(srcs, found):
+        out, last = [], 0
+        for (o, c, name, po, pc) in fs:
+            tree = parse_stmts(s, o + 1, c)
+            params, tree = normalise_body(name, s[po:pc + 1], tree, {k: v for k, v in helpers.items() if k != name})
+            out += [s[last:po], params, s[pc + 1:o + 1], "\n", unparse(tree), "\n"]
+            last = c
+        out.append(s[last:])
+        outs.append("".join(out))
+    return outs
+
+
+# ---------------------------------------------------------------------------------------------------------------
 # boolean conditions over s.fail() / s.eof()
 # ---------------------------------------------------------------------------------------------------------------
 BTOK = re.compile(r"\s*(\|\||&&|!|\(|\)|\bnot\b|\bor\b|\band\b|s\s*\.\s*fail\s*\(\s*\)|s\s*\.\s*eof\s*\(\s*\)|s\s*\.\s*good\s*\(\s*\)|s\s*\.\s*bad\s*\(\s*\))")
@@ -340,9 +1214,8 @@ def translate(repo):
     def rd(p):
         with open(os.path.join(repo, p), encoding="latin-1") as fh:
             return strip_comments(fh.read())
-    cc = rd("dune/common/parametertree.cc")
-    hh = rd("dune/common/parametertree.hh")
-    pc = rd("dune/common/parametertreeparser.cc")
+    cc, hh, pc = normalise_sources([rd("dune/common/parametertree.cc"), rd("dune/common/parametertree.hh"),
+                                    rd("dune/common/parametertreeparser.cc")])
     out = []
     A = out.append
     A("-- GENERATED by tools/translators/tr_c12.py from dune/common/parametertree.hh, parametertree.cc and")
@@ -421,8 +1294,16 @@ def translate(repo):
         if len(heads) != 1 or len(tails) != 1:
             raise TranslateError("%s: head/tail substr offsets not unique: %s %s" % (lname, heads, tails))
         # the descent is taken exactly when the separator was found
-        if not re.search(r"if\s*\(\s*" + var + r"\s*!=\s*(std::)?(string::)?(std::string::)?npos\s*\)", body):
+        fm_ = re.search(r"if\s*\(\s*" + var + r"\s*!=\s*(std::)?(string::)?(std::string::)?npos\s*\)\s*\{", body)
+        if not fm_:
             raise TranslateError("%s: `if (%s != npos)` not found" % (lname, var))
+        found_branch = block_at(body, fm_.end() - 1)
+        outside = body.replace(found_branch, "", 1)
+        for args in substr_calls(outside, "key", lname):
+            if any(re.search(r"\b" + var + r"\b", a_) for a_ in args) and not lname.startswith("sub"):
+                raise TranslateError("%s: key.substr(… %s …) outside the branch `%s != npos`" % (lname, var, var))
+        if len(substr_calls(found_branch, "key", lname)) < 2:
+            raise TranslateError("%s: head and tail of the key are not both taken in the branch `%s != npos`" % (lname, var))
         seps.append((lname, sep, heads.pop(), tails.pop()))
     A("/-- per function: separator found by `key.find(…)`, end of the first component `key.substr(0, dot+a)`, start of")
     A("    the remainder `key.substr(dot+b)` -/")
@@ -487,8 +1368,7 @@ def translate(repo):
     A("def iniHeaderInnerStart : Nat := %d" % affine(args[0], None, "header substr start"))
     A("def iniHeaderInnerLen : Int := %d" % affine(args[1], pos, "header substr length"))
     A("def iniHeaderTrims : List Char := %s" % lean_chars([ord(t) for t in trims]))
-    sm = re.search(r"if\s*\(\s*prefix\s*!=\s*\"\"\s*\)\s*prefix\s*\+=\s*(" + LIT + r")\s*;", hdr_block) or \
-        re.search(r"if\s*\(\s*!\s*prefix\s*\.\s*empty\s*\(\s*\)\s*\)\s*prefix\s*\+=\s*(" + LIT + r")\s*;", hdr_block)
+    sm = re.search(r"if\s*\(\s*!\s*prefix\s*\.\s*empty\s*\(\s*\)\s*\)\s*\{?\s*prefix\s*(?:\+=|=\s*prefix\s*\+)\s*(" + LIT + r")\s*;", hdr_block)
     if not sm:
         raise TranslateError("header: `if (prefix != \"\") prefix += \".\"` not found")
     A("/-- header: `if (prefix != \"\") prefix += %s` -/" % sm.group(1))
@@ -541,15 +1421,33 @@ def translate(repo):
     A("def iniQuotes : List Char := %s" % lean_chars(sorted(quotes)))
     if not re.search(r"char\s+quote\s*=\s*value\s*\[\s*0\s*\]\s*;", dflt):
         raise TranslateError("assignment: `char quote = value[0]` not found")
-    vs = substr_calls(dflt, "value", "value.substr")
-    if len(vs) != 2 or len(vs[0]) != 1 or len(vs[1]) != 2:
-        raise TranslateError("assignment: expected value.substr(1) and value.substr(0, value.length()-1)")
-    A("/-- `value = value.substr(%s)` drops the opening quote; `value.substr(%s, %s)` the closing one -/" % (vs[0][0], vs[1][0], vs[1][1]))
-    A("def iniQuoteOpenDrop : Nat := %d" % affine(vs[0][0], None, "opening quote"))
-    if affine(vs[1][0], None, "closing quote start") != 0:
+    om_ = re.search(r"char\s+quote\s*=\s*value\s*\[\s*0\s*\]\s*;\s*value\s*=\s*value\s*\.\s*substr\s*\(", dflt)
+    if not om_:
+        raise TranslateError("assignment: `char quote = value[0]; value = value.substr(1);` not found")
+    oargs, oend = call_args(dflt, om_.end() - 1, "opening quote")
+    if len(oargs) != 1 or not re.match(r"\s*;\s*while\s*\(", dflt[oend + 1:]):
+        raise TranslateError("assignment: value.substr(1) must be followed by the continuation loop")
+    wm0 = re.search(r"while\s*\([^{]*\{", dflt[oend:], flags=re.S)
+    wblock = block_at(dflt, oend + wm0.end() - 1)
+    after_loop = dflt[oend + wm0.end() - 1 + len(wblock) + 2:]
+    cm_ = re.match(r"\s*value\s*=\s*((?:[lr]trim\s*\(\s*)*)value\s*(\)*)\s*\.\s*substr\s*\(", after_loop)
+    if not cm_ or cm_.group(1).count("(") != len(cm_.group(2)):
+        raise TranslateError("assignment: after the continuation loop `value = rtrim(value).substr(0, rtrim(value).length()-1)` "
+                             "(or its two-statement form) expected")
+    cargs, cend = call_args(after_loop, cm_.end() - 1, "closing quote")
+    if len(cargs) != 2 or not re.match(r"\s*;\s*\}?\s*$|\s*;\s*\}", after_loop[cend + 1:]):
+        raise TranslateError("assignment: closing quote: substr(0, length-1) expected as the last statement of the quoted branch")
+    trimmed_ = re.sub(r"\s+", "", cm_.group(1) + "value" + cm_.group(2))
+    A("/-- `value = value.substr(%s)` drops the opening quote; after the loop `value = %s.substr(%s, %s)` the closing one -/" % (oargs[0], trimmed_, cargs[0], cargs[1]))
+    A("def iniQuoteOpenDrop : Nat := %d" % affine(oargs[0], None, "opening quote"))
+    if affine(cargs[0], None, "closing quote start") != 0:
         raise TranslateError("closing quote: substr must start at 0")
-    lenvar = "value.length()" if "length" in vs[1][1] else "value.size()"
-    A("def iniQuoteCloseLen : Int := %d" % affine(vs[1][1], lenvar, "closing quote"))
+    lenvar = trimmed_ + (".length()" if "length" in cargs[1] else ".size()")
+    A("def iniQuoteCloseLen : Int := %d" % affine(cargs[1], lenvar, "closing quote"))
+    A("/-- the trims applied to the value before the closing quote is cut off -/")
+    A("def iniQuoteCloseTrims : List Char := %s" % lean_chars([ord(t) for t in sorted(re.findall(r"([lr])trim", cm_.group(1)))]))
+    if len(substr_calls(dflt, "value", "value.substr")) != 1:
+        raise TranslateError("assignment: unexpected further value.substr call")
     wm = re.search(r"while\s*\(", dflt)
     if not wm:
         raise TranslateError("quote continuation loop not found")
@@ -589,7 +1487,8 @@ def translate(repo):
     # ---- 4. command line ------------------------------------------------------------------------------------
     A("/-! ## readOptions / readNamedOptions -/")
     (ob, _, _), = bodies(pc, r"\bParameterTreeParser::readOptions\s*\(", "readOptions")[:1]
-    fm = re.search(r"for\s*\(\s*(?:int|std::size_t|size_t|unsigned|unsigned\s+int)\s+i\s*=\s*(\d+)\s*;\s*i\s*<\s*argc\s*;\s*(?:i\+\+|\+\+i)\s*\)", ob)
+    fm = re.search(r"for\s*\(\s*(?:int|std::size_t|size_t|unsigned|unsigned\s+int)\s+i\s*=\s*(\d+)\s*;\s*i\s*<\s*argc\s*;\s*(?:i\+\+|\+\+i)\s*\)", ob) or \
+        re.match(r"\s*(?:int|std::size_t|size_t|unsigned|unsigned\s+int)\s+i\s*=\s*(\d+)\s*;\s*for\s*\(\s*;\s*i\s*<\s*argc\s*;\s*\+\+i\s*\)", ob)
     if not fm:
         raise TranslateError("readOptions: `for (int i=1; i<argc; i++)` not found")
     A("def optFirstArg : Nat := %s" % fm.group(1))
@@ -771,13 +1670,13 @@ def translate(repo):
     gd = re.search(r"T\s+get\s*\(\s*const\s+std::string\s*&\s*key\s*,\s*const\s+T\s*&\s*defaultValue\s*\)\s*const\s*\{", hh)
     if not gd:
         raise TranslateError("get<T>(key, defaultValue) not found")
-    gdb = re.sub(r"\s+", "", block_at(hh, gd.end() - 1))
+    gdb = re.sub(r"[\s{}]+", "", block_at(hh, gd.end() - 1))
     A("/-- `get<T>(key, defaultValue)`: `if (hasKey(key)) return get<T>(key); else return defaultValue;` -/")
     A("def getDefaultOnlyWhenAbsent : Bool := %s" % ("true" if gdb in (
         "if(hasKey(key))returnget<T>(key);elsereturndefaultValue;", "if(hasKey(key))returnget<T>(key);returndefaultValue;",
         "if(!hasKey(key))returndefaultValue;elsereturnget<T>(key);", "if(!hasKey(key))returndefaultValue;returnget<T>(key);",
         "if(nothasKey(key))returndefaultValue;returnget<T>(key);", "returnhasKey(key)?get<T>(key):defaultValue;") else "false"))
-    sd = [re.sub(r"\s+", "", b[0]) for b in bodies(cc, r"\bParameterTree::get\s*\(", "ParameterTree::get(key, string default)")]
+    sd = [re.sub(r"[\s{}]+", "", b[0]) for b in bodies(cc, r"\bParameterTree::get\s*\(", "ParameterTree::get(key, string default)")]
     okd = all(b in ("if(hasKey(key))return(*this)[key];elsereturndefaultValue;", "if(hasKey(key))return(*this)[key];returndefaultValue;",
                     "if(!hasKey(key))returndefaultValue;return(*this)[key];", "if(!hasKey(key))returndefaultValue;elsereturn(*this)[key];",
                     "returnhasKey(key)?(*this)[key]:defaultValue;") for b in sd)
